@@ -105,122 +105,212 @@ func rulesPersist(c *Ctx) {
 	kEmitWrite := c.kindEmit("stores.EventWrite")
 	kEmitRepl := c.kindEmit("stores.EventReplicated")
 
-	apps := c.appendSites()
-	nApp := 0
-	for _, app := range apps {
-		f := app.Parent()
+	// append sites, closed under wrappers: a call of a repo function that appends on every
+	// non-failing path is an append site of its caller. An obligation "K happens between the
+	// append and X" is evaluated along the chain of enclosing calls: it holds if some level of
+	// the chain establishes it (the helper itself, or its caller after the helper returns).
+	kAppend := newKind("append", func(call ssa.CallInstruction) bool { return c.isLogCall(call, "Append") })
+	var directApps []ssa.CallInstruction
+	callersOf := map[*ssa.Function][]ssa.CallInstruction{}
+	for _, f := range c.RepoFns {
 		if c.isTestFile(f.Pos()) {
 			continue
 		}
+		eachCall(f, func(call ssa.CallInstruction) {
+			if _, isGo := call.(*ssa.Go); isGo || !c.isSite(kAppend, call) {
+				return
+			}
+			if kAppend.direct(call) {
+				directApps = append(directApps, call)
+			} else if g := call.Common().StaticCallee(); g != nil {
+				callersOf[g] = append(callersOf[g], call)
+			}
+		})
+	}
+	startOf := func(site ssa.CallInstruction) startPt {
+		st, _, tested := okStart(site)
+		if !tested {
+			return after(site)
+		}
+		return st
+	}
+	// ackHolds: every path from the site to a successful return (at this level or, for
+	// helpers, at every caller's level) passes a K-site.
+	var ackHolds func(site ssa.CallInstruction, k *siteKind, direct bool, depth int) (bool, ssa.Instruction, []token.Pos)
+	ackHolds = func(site ssa.CallInstruction, k *siteKind, direct bool, depth int) (bool, ssa.Instruction, []token.Pos) {
+		f := site.Parent()
+		if !direct && c.isSite(k, site) {
+			return true, nil, nil
+		}
+		hit, tr := findPath(f, startOf(site), func(in ssa.Instruction) bool { return c.isSite(k, in) }, successReturn, nil)
+		if hit == nil {
+			return true, nil, nil
+		}
+		if cs := callersOf[f]; len(cs) > 0 && depth < 4 {
+			for _, cs1 := range cs {
+				if ok, h2, t2 := ackHolds(cs1, k, false, depth+1); !ok {
+					return false, h2, t2
+				}
+			}
+			return true, nil, nil
+		}
+		return false, hit, tr
+	}
+	// beforeHolds: no target site is reachable after the append (at any level of the chain)
+	// without passing a K-site first.
+	var beforeHolds func(site ssa.CallInstruction, k, target *siteKind, direct bool, depth int) (bool, ssa.Instruction, []token.Pos)
+	beforeHolds = func(site ssa.CallInstruction, k, target *siteKind, direct bool, depth int) (bool, ssa.Instruction, []token.Pos) {
+		f := site.Parent()
+		if !direct && c.isSite(k, site) {
+			return true, nil, nil
+		}
+		if hit, tr := findPath(f, startOf(site), func(in ssa.Instruction) bool { return c.isSite(k, in) },
+			func(in ssa.Instruction) bool { return c.isSite(target, in) }, nil); hit != nil {
+			return false, hit, tr
+		}
+		// K established at this level on every successful path? then callers are covered
+		if ok, _, _ := ackHolds(site, k, direct, 5); ok {
+			return true, nil, nil
+		}
+		if depth < 4 {
+			for _, cs1 := range callersOf[f] {
+				if ok, h2, t2 := beforeHolds(cs1, k, target, false, depth+1); !ok {
+					return false, h2, t2
+				}
+			}
+		}
+		return true, nil, nil
+	}
+	nApp := 0
+	for _, app := range directApps {
+		f := app.Parent()
 		if !c.isControlFn(f) {
 			nApp++
 		}
 		fk := fnKey(f)
-		start, _, tested := okStart(app)
-		if !tested {
+		if _, _, tested := okStart(app); !tested {
 			c.bad("P1", fk+"→Append#err", app.Pos(), "the error result of Append is not tested; a failed append would be acknowledged")
 			continue
 		}
 		// --- P1(a): Append … Put(local head, error tested) … return e, nil
-		putVia := func(in ssa.Instruction) bool { return c.isSite(kPutAny, in) }
-		if hit, tr := findPath(f, start, putVia, successReturn, nil); hit != nil {
+		if ok, hit, tr := ackHolds(app, kPutAny, true, 0); !ok {
 			c.bad("P1", fk+"→Append→ack", hit.Pos(),
 				"a successful return is reachable after Append without persisting the new head in the cache (acknowledged write would be lost by a restart)", c.trailStr(tr)...)
 		} else {
 			c.ok("P1", fk+"→Append→ack", app.Pos(), "every path from Append to a successful return passes a cache Put")
 		}
 		// the Put's error must be tested and its failing branch must not acknowledge
-		eachInstr(f, func(in ssa.Instruction) {
-			call, ok := in.(ssa.CallInstruction)
-			if !ok || !c.isSite(kPutAny, in) {
-				return
+		chain := []*ssa.Function{f}
+		for i := 0; i < len(chain) && i < 8; i++ {
+			for _, cs1 := range callersOf[chain[i]] {
+				chain = append(chain, cs1.Parent())
 			}
-			if _, isGo := in.(*ssa.Go); isGo {
-				return
-			}
-			key, _ := c.cachePutKey(call)
-			_, fails, tested := okStart(call)
-			cons := fmt.Sprintf("%s→Put(%s)#err", fk, key)
-			if !tested {
-				if ev := errResult(call); ev != nil && returnedDirectly(ev) {
-					c.ok("P1", cons, call.Pos(), "Put error is returned to the caller")
+		}
+		seenPut := map[ssa.Instruction]bool{}
+		for _, g := range chain {
+			eachInstr(g, func(in ssa.Instruction) {
+				call, ok := in.(ssa.CallInstruction)
+				if !ok || seenPut[in] {
 					return
 				}
-				c.bad("P1", cons, call.Pos(), "the error of the head-persisting Put is dropped: a failed write to the cache is acknowledged as success")
-				return
-			}
-			for _, fb := range fails {
-				if hit, tr := findPath(f, atBlock(fb), nil, func(in ssa.Instruction) bool {
-					r, ok := in.(*ssa.Return)
-					return ok && isNilErrReturn(r) && len(r.Results) > 0
-				}, func(b *ssa.BasicBlock, si int) bool { return false }); hit != nil && branchCovers(fb, hit.Block()) {
-					c.bad("P1", cons, hit.Pos(), "the failing branch of the Put error test still reaches a successful return", c.trailStr(tr)...)
+				if _, isPut := c.cachePutKey(call); !isPut {
 					return
 				}
-			}
-			c.ok("P1", cons, call.Pos(), "Put error is tested and the failing branch leaves with an error")
-		})
-		// --- E1 (write): view refresh before EventWrite
-		updVia := func(in ssa.Instruction) bool { return c.isSite(kUpd, in) }
-		emitW := func(in ssa.Instruction) bool { return c.isSite(kEmitWrite, in) }
-		if hit, tr := findPath(f, start, updVia, emitW, nil); hit != nil {
+				if _, isGo := in.(*ssa.Go); isGo {
+					return
+				}
+				seenPut[in] = true
+				key, _ := c.cachePutKey(call)
+				_, fails, tested := okStart(call)
+				cons := fmt.Sprintf("%s→Put(%s)#err", fnKey(g), key)
+				if !tested {
+					if ev := errResult(call); ev != nil && returnedDirectly(ev) {
+						c.ok("P1", cons, call.Pos(), "Put error is returned to the caller")
+						return
+					}
+					c.bad("P1", cons, call.Pos(), "the error of the head-persisting Put is dropped: a failed write to the cache is acknowledged as success")
+					return
+				}
+				for _, fb := range fails {
+					if hit, tr := findPath(g, atBlock(fb), nil, func(in ssa.Instruction) bool {
+						r, ok := in.(*ssa.Return)
+						return ok && isNilErrReturn(r) && len(r.Results) > 0
+					}, nil); hit != nil && branchCovers(fb, hit.Block()) {
+						c.bad("P1", cons, hit.Pos(), "the failing branch of the Put error test still reaches a successful return", c.trailStr(tr)...)
+						return
+					}
+				}
+				c.ok("P1", cons, call.Pos(), "Put error is tested and the failing branch leaves with an error")
+			})
+		}
+		// --- E1 (write): view refresh and head persistence before EventWrite
+		if ok, hit, tr := beforeHolds(app, kUpd, kEmitWrite, true, 0); !ok {
 			c.bad("E1", fk+"→EventWrite", hit.Pos(), "EventWrite can be emitted before the view has been refreshed: a subscriber querying on the event does not see the announced entry", c.trailStr(tr)...)
 		} else {
 			c.ok("E1", fk+"→EventWrite", app.Pos(), "view refresh dominates the emission of EventWrite after Append")
 		}
-		if hit, tr := findPath(f, start, putVia, emitW, nil); hit != nil {
+		if ok, hit, tr := beforeHolds(app, kPutAny, kEmitWrite, true, 0); !ok {
 			c.bad("E1", fk+"→EventWrite#persist", hit.Pos(), "EventWrite can be emitted before the new head is persisted", c.trailStr(tr)...)
 		} else {
 			c.ok("E1", fk+"→EventWrite#persist", app.Pos(), "head persistence dominates the emission of EventWrite")
 		}
 		// --- I4 (write path): refresh before acknowledging
-		if hit, tr := findPath(f, start, updVia, successReturn, nil); hit != nil {
+		if ok, hit, tr := ackHolds(app, kUpd, true, 0); !ok {
 			c.bad("I4", fk+"→Append→ack", hit.Pos(), "a successful return is reachable after Append without refreshing the view", c.trailStr(tr)...)
 		} else {
 			c.ok("I4", fk+"→Append→ack", app.Pos(), "every path from Append to a successful return refreshes the view")
 		}
 		// --- E2: exactly one EventWrite per acknowledged write, carrying the appended entry
-		if hit, tr := findPath(f, start, emitW, successReturn, nil); hit != nil {
+		if ok, hit, tr := ackHolds(app, kEmitWrite, true, 0); !ok {
 			c.bad("E2", fk+"→ack#emit", hit.Pos(), "a successful return is reachable after Append without emitting EventWrite", c.trailStr(tr)...)
 		} else {
 			c.ok("E2", fk+"→ack#emit", app.Pos(), "every acknowledged write emits EventWrite")
 		}
-		var emits []ssa.CallInstruction
-		eachCall(f, func(call ssa.CallInstruction) {
-			if c.isSite(kEmitWrite, call) {
-				emits = append(emits, call)
-			}
-		})
-		for i, em := range emits {
-			cons := fmt.Sprintf("%s→EventWrite#%d", fk, i)
-			if inLoop(em.Block()) {
-				c.bad("E2", cons+"#once", em.Pos(), "EventWrite is emitted inside a loop: one write can produce several events")
-				continue
-			}
-			if hit, tr := findPath(f, after(em), nil, emitW, nil); hit != nil {
-				c.bad("E2", cons+"#once", hit.Pos(), "a second EventWrite emission is reachable after the first on the same write", c.trailStr(tr)...)
-				continue
-			}
-			c.ok("E2", cons+"#once", em.Pos(), "at most one EventWrite emission per write")
-			// operand: the entry handed to the event derives from Append's result
-			if c.isEmitOf(em, "stores.EventWrite") {
-				d := derived([]ssa.Value{app.Value()}, flowOpts{})
-				okEntry := false
-				if a := argsOf(em); len(a) == 1 {
-					if ctor, ok := strip(a[0]).(*ssa.Call); ok {
-						for _, x := range ctor.Call.Args {
-							if d[x] || d[strip(x)] {
-								okEntry = true
-							}
-						}
-					} else if d[strip(a[0])] {
-						okEntry = true
-					}
+		emitW := func(in ssa.Instruction) bool { return c.isSite(kEmitWrite, in) }
+		for _, g := range chain {
+			var emits []ssa.CallInstruction
+			eachCall(g, func(call ssa.CallInstruction) {
+				if _, isGo := call.(*ssa.Go); isGo {
+					return
 				}
-				if okEntry {
-					c.ok("E2", cons+"#entry", em.Pos(), "the emitted event carries the entry returned by Append")
-				} else {
-					c.bad("E2", cons+"#entry", em.Pos(), "the emitted EventWrite does not carry the entry returned by this Append")
+				// at the level of the append itself every emit site counts; in callers of a
+				// helper only direct emissions (a loop of writes is not a loop of events per write)
+				if (g == f && c.isSite(kEmitWrite, call)) || (g != f && c.isEmitOf(call, "stores.EventWrite")) {
+					emits = append(emits, call)
+				}
+			})
+			gk := fnKey(g)
+			for i, em := range emits {
+				cons := fmt.Sprintf("%s→EventWrite#%d", gk, i)
+				if inLoop(em.Block()) {
+					c.bad("E2", cons+"#once", em.Pos(), "EventWrite is emitted inside a loop: one write can produce several events")
+					continue
+				}
+				if hit, tr := findPath(g, after(em), nil, emitW, nil); hit != nil {
+					c.bad("E2", cons+"#once", hit.Pos(), "a second EventWrite emission is reachable after the first on the same write", c.trailStr(tr)...)
+					continue
+				}
+				c.ok("E2", cons+"#once", em.Pos(), "at most one EventWrite emission per write")
+				// operand: the entry handed to the event derives from Append's result
+				if g == f && c.isEmitOf(em, "stores.EventWrite") {
+					d := derived([]ssa.Value{app.Value()}, flowOpts{})
+					okEntry := false
+					if a := argsOf(em); len(a) == 1 {
+						if ctor, ok := strip(a[0]).(*ssa.Call); ok {
+							for _, x := range ctor.Call.Args {
+								if d[x] || d[strip(x)] {
+									okEntry = true
+								}
+							}
+						} else if d[strip(a[0])] {
+							okEntry = true
+						}
+					}
+					if okEntry {
+						c.ok("E2", cons+"#entry", em.Pos(), "the emitted event carries the entry returned by Append")
+					} else {
+						c.bad("E2", cons+"#entry", em.Pos(), "the emitted EventWrite does not carry the entry returned by this Append")
+					}
 				}
 			}
 		}
